@@ -26,6 +26,7 @@
 import Proofs.RT.Top
 import NarseseModel.Gen.Formats
 import Props.C01b
+import Props.C11
 set_option autoImplicit false
 
 namespace Narsese.Props.C01
@@ -118,5 +119,11 @@ theorem k1_sentence_fails :
     Gen.asciiE.eparse (Gen.asciiE.fmtNarsese (.sentence (.judgement k1Term .empty .eternal))) ≠
       .ok (.sentence (.judgement k1Term .empty .eternal)) := by
   decide +kernel
+
+/-- tie of the model's copula look-ahead list (`EFormat.copulas`, written out in the model) to what the crate's
+`NarseseFormat::copulas()` yields, regenerated on every run: the theorems of this file talk about the model's list -/
+theorem copulas_lookahead_tie :
+    Gen.asciiE.copulas = Gen.asciiCopulasOrder ∧ Gen.latexE.copulas = Gen.latexCopulasOrder ∧
+    Gen.hanE.copulas = Gen.hanCopulasOrder := C11.copulas_order
 
 end Narsese.Props.C01
